@@ -34,6 +34,40 @@ def coq_check(prop):
 # implementation side
 
 
+_SUB = {}
+
+
+def _node_class(name):
+    """DAGNode itself or a user subclass of it (extra class attribute, extra method, own __init__ passing through)"""
+    from bigtree.node.dagnode import DAGNode
+
+    if name == "DAGNode":
+        return DAGNode
+    if "Sub" not in _SUB:
+        class SubDAGNode(DAGNode):
+            kind = "sub"
+
+            def __init__(self, name="", **kwargs):
+                super().__init__(name, **kwargs)
+
+            def shout(self):
+                return self.node_name.upper()
+
+        _SUB["Sub"] = SubDAGNode
+    return _SUB["Sub"]
+
+
+def _container(items, cont):
+    """the iterable handed to the children setter / the relation list handed to a constructor"""
+    if cont == "tuple":
+        return tuple(items)
+    if cont == "gen":
+        return (x for x in items)
+    if cont == "dictvalues":
+        return {i: x for i, x in enumerate(items)}.values()
+    return list(items)
+
+
 class _Builder:
     """Performs the listed link insertions on real DAGNode objects, one step at a time.
 
@@ -45,13 +79,12 @@ class _Builder:
       ["NP", c, [p..], mut]     DAGNode(name, parents=lst) when node c does not exist yet (else like "P")
       ["NC", p, [c..], mut]     DAGNode(name, children=lst) when node p does not exist yet (else like "C")
       ["R", p, c]  p >> c       ["L", c, p]  c << p       ["D", p]  del p.children
+    "C"/"NC" take an optional 5th field: the iterable type handed to the children setter (list | tuple | gen | dictvalues).
     mut: what the harness does to ITS list object after the assignment: "none" | "clear" | "rev" | ["append", k]
     (a correct implementation never keeps the caller's list, so this changes nothing)."""
 
     def __init__(self, case):
-        from bigtree.node.dagnode import DAGNode
-
-        self.cls = DAGNode
+        self.cls = _node_class(case.get("cls", "DAGNode"))
         self.case = case
         self.nodes = [None] * case["n"]
 
@@ -82,7 +115,9 @@ class _Builder:
                 self.node(op[1]).parents = lst
             self._mutate(lst, mut)
         elif k in ("C", "NC"):
-            lst = [self.node(c) for c in op[2]]
+            lst = _container([self.node(c) for c in op[2]], op[4] if len(op) > 4 else "list")
+            if not isinstance(lst, list):
+                mut = "none"
             if k == "NC" and self.nodes[op[1]] is None:
                 self.nodes[op[1]] = self.cls(self.case["names"][op[1]], children=lst, **self.case["attrs"][op[1]])
             else:
@@ -137,6 +172,21 @@ def _observe16(nodes):
             except Exception as e:
                 row.append([exn_code(e), []])
         goto.append(row)
+    if _links(nodes) != links:
+        raise RuntimeError("a query changed the links of the DAG")
+    # several iterators advanced in turn must not disturb each other
+    gens = [dag_iterator(s) for s in nodes]
+    inter = [[] for _ in nodes]
+    live = list(range(len(nodes)))
+    while live:
+        for i in list(live):
+            try:
+                p, c = next(gens[i])
+                inter[i].append([idx[id(p)], idx[id(c)]])
+            except StopIteration:
+                live.remove(i)
+    if inter != it:
+        raise RuntimeError("interleaved dag_iterator runs differ from separate runs")
     return {"links": links, "iter": it, "anc": anc, "desc": desc, "sib": sib, "goto": goto}
 
 
@@ -188,30 +238,19 @@ def _observe_dag(root):
             if pv is not None:
                 a[key] = pv
         attrs.append([x.node_name, sorted(a.items())])
-    return {"code": 0, "names": names, "edges": edges, "attrs": attrs}
+    return {"code": 0, "names": names, "edges": edges, "attrs": attrs, "_nodes": order}
 
 
-def _rebuild(fn, *args, **kw):
+def _rebuild(fn, *args, node_type=None, **kw):
     try:
-        r = fn(*args, **kw)
+        r = fn(*args, **kw) if node_type is None else fn(*args, node_type=node_type, **kw)
     except Exception as e:
         return {"code": exn_code(e), "names": [], "edges": [], "attrs": []}
-    return _observe_dag(r)
-
-
-def _df_rows(df):
-    cols = list(df.columns)
-    rows = []
-    if len(cols) < 2:
-        return rows
-    for r in df.to_dict(orient="index").values():
-        a = {}
-        for c in cols[2:]:
-            pv = _pv(r[c])
-            if pv is not None:
-                a[c] = pv
-        rows.append([_pv(r[cols[0]]), _pv(r[cols[1]]), sorted(a.items())])
-    return rows
+    o = _observe_dag(r)
+    order = o.pop("_nodes")
+    if node_type is not None:
+        o["_all_instances"] = all(type(x) is node_type for x in order)
+    return o
 
 
 def run_impl(prop, case):
@@ -234,48 +273,165 @@ def run_impl(prop, case):
     from bigtree.dag.construct import dataframe_to_dag, dict_to_dag, list_to_dag
     from bigtree.dag.export import dag_to_dataframe, dag_to_dict, dag_to_list
 
+    cls = _node_class(case.get("cls", "DAGNode"))
+    nt = {} if case.get("cls", "DAGNode") == "DAGNode" else {"node_type": cls}
+
+    def rebuild(fn, *args, **kw):
+        r = _rebuild(fn, *args, **kw, **nt)
+        if r["code"] == 0 and nt and not r.pop("_all_instances", True):
+            raise RuntimeError("a rebuilt node is not an instance of the requested node_type")
+        r.pop("_all_instances", None)
+        return r
+
     if kind == "export":
+        import random as _random
+
+        opt = case.get("opt", {})
+        pk = opt.get("parent_key", "parents")
+        name_col = opt.get("name_col", "name")
+        parent_col = opt.get("parent_col", "parent")
         nodes = _build(case)
         links = _links(nodes)
+        attrs_before = [sorted((k, repr(v)) for k, v in n.__dict__.items() if not k.startswith("_")) for n in nodes]
         start = nodes[case["start"]]
         if case["mode"] == "all":
             kw = {"all_attrs": True}
+        elif case["mode"] == "all+dict":       # all_attrs wins over a given attr_dict
+            kw = {"all_attrs": True, "attr_dict": {"step": "ignored"}}
         else:
             kw = {"attr_dict": {k: v for k, v in case["mode"]}}
+        dkw = dict(kw)
+        fkw = dict(kw)
+        if "parent_key" in opt:
+            dkw["parent_key"] = pk
+        if "name_col" in opt:
+            fkw["name_col"] = name_col
+        if "parent_col" in opt:
+            fkw["parent_col"] = parent_col
+
+        def canon_dict(od):
+            out = []
+            for nm, ent in od.items():
+                ent = dict(ent)
+                ps = ent.pop(pk, None)
+                out.append([nm, ps, sorted(((k, _pv(v)) for k, v in ent.items()), key=lambda kv: kv[0])])
+            return out
+
+        def canon_df(df):
+            cols = list(df.columns)
+            if len(cols) == 0:
+                return []
+            if name_col not in cols or parent_col not in cols:
+                raise RuntimeError("the exported frame lacks the requested name / parent column")
+            rows = []
+            for r in df.to_dict(orient="records"):
+                a = {}
+                for c in cols:
+                    if c in (name_col, parent_col):
+                        continue
+                    pv = _pv(r[c])
+                    if pv is not None:
+                        a[c] = pv
+                rows.append([_pv(r[name_col]), _pv(r[parent_col]), sorted(a.items())])
+            return rows
+
         ol = dag_to_list(start)
-        od = dag_to_dict(start, **kw)
-        odf = dag_to_dataframe(start, **kw)
-        rl = _rebuild(list_to_dag, ol)
-        rd = _rebuild(dict_to_dag, od)
-        rdf = _rebuild(dataframe_to_dag, odf)
-        links_after = _links(nodes)
-        if links_after != links:
+        od = dag_to_dict(start, **dkw)
+        odf = dag_to_dataframe(start, **fkw)
+        o_list, o_dict, o_df = [list(t) for t in ol], canon_dict(od), canon_df(odf)
+        # repeatable
+        if [list(t) for t in dag_to_list(start)] != o_list or canon_dict(dag_to_dict(start, **dkw)) != o_dict \
+                or canon_df(dag_to_dataframe(start, **fkw)) != o_df:
+            raise RuntimeError("exporting twice gave different results")
+        # the same graph whichever node of the component the export starts from
+        comp = {id(start)}
+        todo = [start]
+        while todo:
+            x = todo.pop()
+            for y in list(x.parents) + list(x.children):
+                if id(y) not in comp:
+                    comp.add(id(y))
+                    todo.append(y)
+        key = lambda v: repr(v)
+        ref = (sorted(o_list), sorted([e[0], sorted(e[1] or []), e[1] is None, e[2]] for e in o_dict), sorted(o_df, key=key))
+        for other in nodes:
+            if id(other) in comp and other is not start:
+                d2 = canon_dict(dag_to_dict(other, **dkw))
+                got = (sorted(list(t) for t in dag_to_list(other)),
+                       sorted([e[0], sorted(e[1] or []), e[1] is None, e[2]] for e in d2),
+                       sorted(canon_df(dag_to_dataframe(other, **fkw)), key=key))
+                if got != ref:
+                    raise RuntimeError(f"export started from node {nodes.index(other)} differs from export started from node {case['start']}")
+        # rebuild, possibly from a re-ordered copy of the export (the result must not depend on the order)
+        prng = _random.Random(case.get("perm", 0))
+        l_in, d_in, f_in = list(ol), dict(od), odf
+        if case.get("perm"):
+            prng.shuffle(l_in)
+            items = list(od.items())
+            prng.shuffle(items)
+            d_in = {}
+            for nm, ent in items:
+                ent = dict(ent)
+                if pk in ent:
+                    ent[pk] = list(ent[pk])
+                    prng.shuffle(ent[pk])
+                d_in[nm] = ent
+            if len(odf):
+                f_in = odf.sample(frac=1, random_state=case["perm"])
+                if opt.get("index") == "dup":
+                    f_in.index = [0] * len(f_in)
+                elif opt.get("index") != "keep":
+                    f_in = f_in.reset_index(drop=True)
+        elif opt.get("index") == "dup" and len(odf):
+            f_in = odf.copy()
+            f_in.index = [7] * len(f_in)
+        l_in = _container([_container(t, opt.get("pair", "tuple")) for t in l_in], opt.get("rel", "list"))
+        ckw = {}
+        if opt.get("explicit_cols") and len(odf):
+            ckw = {"child_col": name_col, "parent_col": parent_col,
+                   "attribute_cols": [c for c in odf.columns if c not in (name_col, parent_col)]}
+        rl = rebuild(list_to_dag, l_in)
+        rd = rebuild(dict_to_dag, d_in, **({"parent_key": pk} if "parent_key" in opt else {}))
+        rdf = rebuild(dataframe_to_dag, f_in, **ckw)
+        if _links(nodes) != links:
             raise RuntimeError("exporting changed the links of the source DAG")
-        d_obs = []
-        for nm, ent in od.items():
-            ent = dict(ent)
-            ps = ent.pop("parents", None)
-            d_obs.append([nm, ps, sorted((k, _pv(v)) for k, v in ent.items())])
-        return {"links": links, "list": [list(t) for t in ol], "dict": d_obs, "df": _df_rows(odf),
-                "rl": rl, "rd": rd, "rdf": rdf}
+        if [sorted((k, repr(v)) for k, v in n.__dict__.items() if not k.startswith("_")) for n in nodes] != attrs_before:
+            raise RuntimeError("exporting changed the attributes of the source DAG")
+        return {"links": links, "list": o_list, "dict": o_dict, "df": o_df, "rl": rl, "rd": rd, "rdf": rdf}
+    opt = case.get("opt", {})
     if kind == "rawlist":
-        return {"r": _rebuild(list_to_dag, [tuple(t) for t in case["rel"]])}
+        rel = _container([_container(t, opt.get("pair", "tuple")) for t in case["rel"]], opt.get("rel", "list"))
+        return {"r": rebuild(list_to_dag, rel)}
     if kind == "rawdict":
+        pk = opt.get("parent_key", "parents")
         d = {}
         for nm, ps, attrs in case["entries"]:
             ent = {}
             if ps is not None:
-                ent["parents"] = list(ps)
+                ent[pk] = list(ps)
             ent.update(attrs)
             d[nm] = ent
-        return {"r": _rebuild(dict_to_dag, d)}
+        return {"r": rebuild(dict_to_dag, d, **({"parent_key": pk} if "parent_key" in opt else {}))}
     if kind == "rawdf":
         import pandas as pd
 
-        cols = ["name", "parent"] + list(case["cols"])
+        name_col = opt.get("name_col", "name")
+        parent_col = opt.get("parent_col", "parent")
+        cols = [name_col, parent_col] + list(case["cols"])
         data = [[nm, par] + [attrs.get(c) for c in case["cols"]] for nm, par, attrs in case["rows"]]
         df = pd.DataFrame(data, columns=cols)
-        return {"r": _rebuild(dataframe_to_dag, df)}
+        ckw = {}
+        if opt.get("explicit_cols"):
+            # columns in another order, the roles given explicitly
+            df = df[list(reversed(cols))]
+            ckw = {"child_col": name_col, "parent_col": parent_col}
+            if opt.get("explicit_cols") == "attrs":
+                ckw["attribute_cols"] = list(case["cols"])
+        if opt.get("index") == "dup":
+            df.index = [3] * len(df)
+        elif opt.get("index") == "labels":
+            df.index = [f"r{len(df) - i}" for i in range(len(df))]
+        return {"r": rebuild(dataframe_to_dag, df, **ckw)}
     raise ValueError(kind)
 
 
@@ -347,7 +503,7 @@ def emit(prop, case, obs):
         return clist(_emit_snap(case, o) for o in obs["snaps"])
     kind = case["kind"]
     if kind == "export":
-        md = "AllAttrs" if case["mode"] == "all" else "AttrDict " + clist(cpair(cstr(k), cstr(v)) for k, v in case["mode"])
+        md = "AllAttrs" if case["mode"] in ("all", "all+dict") else "AttrDict " + clist(cpair(cstr(k), cstr(v)) for k, v in case["mode"])
         parts = [cdag(case, obs["links"]), str(case["start"]), md, cspairs(obs["list"]),
                  cdentries(obs["dict"]), cdfrows(obs["df"])]
         return ("IOExport " + " ".join(f"({p})" for p in parts) + " "
@@ -373,7 +529,7 @@ NAME_POOLS = {
     "special": ["a.b", "(", "a b", "0", "a1", "-", "é", "10", ""],
     "repeated": ["a", "b", "a", "c", "b", "a", "c", "d", "b"],
 }
-ATTR_KEYS = ["step", "tag", "w"]
+ATTR_KEYS = ["step", "tag", "w", "flag"]
 
 
 def _is_acyclic(n, edges):
@@ -471,7 +627,10 @@ def _ops_from_edges(rng, edges, style=None, n=None, max_checkpoints=0):
             else:
                 take(lambda e: e[0] == p and e[1] in cs)
                 kind = "NC" if (st == "NC" and p not in created) else "C"
-                ops.append([kind, p, cs, _mut(rng, n) if style is None else "none"])
+                op = [kind, p, cs, _mut(rng, n) if style is None else "none"]
+                if style is None and rng.random() < 0.4:
+                    op.append(rng.choice(["tuple", "gen", "dictvalues"]))
+                ops.append(op)
                 created.update([p] + cs)
         elif st == "R":
             remaining.pop(0)
@@ -575,6 +734,14 @@ def _attrs(rng, n, style):
                 a["tag"] = rng.choice(["x", "y", "zz"])
             if rng.random() < 0.5:
                 a["w"] = rng.choice(["1", "2"])
+        elif style == "falsy":      # 0, "", False, an attribute that exists with the value None, missing attributes
+            r = rng.random()
+            if r < 0.8:
+                a["step"] = rng.choice([0, 0, 1, None])
+            if rng.random() < 0.8:
+                a["tag"] = rng.choice(["", "", "x", None])
+            if rng.random() < 0.7:
+                a["flag"] = rng.choice([False, False, True])
         else:  # partial_int: integer columns with holes (pandas turns the column into floats)
             if rng.random() < 0.6:
                 a["step"] = rng.randint(-1, 3)
@@ -615,7 +782,8 @@ def gen_dag(rng, nmax=7, nmin=2, pools=("distinct", "distinct", "affix", "specia
         ops += more
     cps = sorted(set(k for k in cps if 0 <= k < len(ops) - 1))
     return {"kind": "dag", "n": n, "names": _names(rng, n, pool_name), "attrs": _attrs(rng, n, attr_style),
-            "ops": ops, "checkpoints": cps, "stratum": f"{shape}/{pool_name}"}
+            "ops": ops, "checkpoints": cps, "cls": "Sub" if rng.random() < 0.25 else "DAGNode",
+            "stratum": f"{shape}/{pool_name}"}
 
 
 def all_small_dags(nmax):
@@ -634,11 +802,13 @@ def _mode(rng, attr_style):
     if attr_style == "none":
         return rng.choice(["all", [], [["step", "step"]]])
     r = rng.random()
-    if r < 0.4:
+    if r < 0.35:
         return "all"
+    if r < 0.42:
+        return "all+dict"
     keys = [k for k in ATTR_KEYS if rng.random() < 0.7] or ["tag"]
     rng.shuffle(keys)
-    ren = {"step": "step no", "tag": "label", "w": "w"}
+    ren = {"step": "step no", "tag": "label", "w": "w", "flag": "is flag?"}
     return [[k, (ren[k] if rng.random() < 0.5 else k)] for k in keys]
 
 
@@ -674,8 +844,9 @@ def gen_raw(rng):
     if rng.random() < 0.25 and rel:
         rel.insert(rng.randint(0, len(rel)), list(rng.choice(rel)))      # a repeated relation
     table = {nm: {"tag": rng.choice(["x", "y"]), "step": rng.randint(0, 2)} for nm in pool}
+    cls = "Sub" if rng.random() < 0.25 else "DAGNode"
     if kind == "rawlist":
-        return label, {"kind": "rawlist", "rel": rel, "stratum": "rawlist/" + label}
+        return label, {"kind": "rawlist", "rel": rel, "opt": _opt(rng, "rawlist"), "cls": cls, "stratum": "rawlist/" + label}
     if kind == "rawdict":
         names = []
         for p, c in rel:
@@ -696,7 +867,8 @@ def gen_raw(rng):
                 entries.append([nm, ps if (ps or rng.random() < 0.5) else None, dict(table[nm]) if rng.random() < 0.7 else {}])
         if not entries:
             entries = [[pool[0], None, {}]]
-        return label, {"kind": "rawdict", "entries": entries, "stratum": "rawdict/" + label}
+        return label, {"kind": "rawdict", "entries": entries, "opt": _opt(rng, "rawdict"), "cls": cls,
+                       "stratum": "rawdict/" + label}
     cols = rng.choice([[], ["tag"], ["tag", "step"]])
     rows = []
     for p, c in rel:
@@ -708,7 +880,8 @@ def gen_raw(rng):
         r = rng.choice(rows)
         r[2] = dict(r[2])
         r[2]["tag"] = "other"      # same child, different attributes: refused
-    return label, {"kind": "rawdf", "rows": rows, "cols": cols, "stratum": "rawdf/" + label}
+    return label, {"kind": "rawdf", "rows": rows, "cols": cols, "opt": _opt(rng, "rawdf"), "cls": cls,
+                   "stratum": "rawdf/" + label}
 
 
 def _raw_from_rel(kind, rel, label):
@@ -782,11 +955,35 @@ def gen_cyclic(rng, tier):
             yield _raw_from_rel(kinds[(j + q) % 3], perm, "cyclic_perm")
 
 
+def _opt(rng, kind):
+    """non-default options, argument container types, frame index labels"""
+    o = {}
+    if kind in ("export", "rawdict") and rng.random() < 0.4:
+        o["parent_key"] = rng.choice(["up", "parent nodes", "parents"])
+    if kind in ("export", "rawdf"):
+        if rng.random() < 0.35:
+            o["name_col"] = rng.choice(["node id", "child", "name"])
+        if rng.random() < 0.35:
+            o["parent_col"] = rng.choice(["from node", "src", "parent"])
+        if rng.random() < 0.4:
+            o["explicit_cols"] = rng.choice([True, "attrs"]) if kind == "rawdf" else True
+        if rng.random() < 0.4:
+            o["index"] = rng.choice(["dup", "dup", "keep" if kind == "export" else "labels"])
+    if kind in ("export", "rawlist"):
+        if rng.random() < 0.4:
+            o["pair"] = "list"
+        if rng.random() < 0.3:
+            o["rel"] = "tuple"
+    return o
+
+
 def _export_case(rng, dag, attr_style):
     c = dict(dag)
     c["kind"] = "export"
     c["start"] = rng.randrange(c["n"])
     c["mode"] = _mode(rng, attr_style)
+    c["opt"] = _opt(rng, "export")
+    c["perm"] = rng.randint(1, 10 ** 6) if rng.random() < 0.5 else 0
     return c
 
 
@@ -874,7 +1071,7 @@ def _exhaustive(prop, rng, nmax, orders):
 
 def generate(prop, rng, tier):
     if prop == "C16":
-        count = {"quick": 1100, "thorough": 12000, "search": 2500}[tier]
+        count = {"quick": 900, "thorough": 12000, "search": 2500}[tier]
         if tier == "thorough":
             yield from _exhaustive(prop, rng, 4, 3)
         else:
@@ -883,13 +1080,13 @@ def generate(prop, rng, tier):
             c = gen_dag(rng, nmax=7 if i % 3 else 6)
             yield c["stratum"], c
         return
-    count = {"quick": 850, "thorough": 12000, "search": 3000}[tier]
+    count = {"quick": 600, "thorough": 9000, "search": 2000}[tier]
     if tier == "thorough":
         yield from _exhaustive(prop, rng, 4, 3)
     else:
         yield from _exhaustive(prop, rng, 3, 2)
     for i in range(count):
-        attr_style = rng.choice(["total", "total", "partial_str", "partial_int", "none"])
+        attr_style = rng.choice(["total", "total", "partial_str", "partial_int", "falsy", "falsy", "none"])
         d = gen_dag(rng, nmax=6, pools=("distinct", "distinct", "affix", "special"), attr_style=attr_style)
         c = _export_case(rng, d, attr_style)
         yield "export/" + attr_style + "/" + c["stratum"], c
@@ -934,6 +1131,18 @@ def _with_op(case, k, op):
 
 def shrink_candidates(prop, case):
     kind = case.get("kind", "dag")
+    if case.get("cls", "DAGNode") != "DAGNode":
+        c = dict(case)
+        c["cls"] = "DAGNode"
+        yield c
+    if case.get("perm"):
+        c = dict(case)
+        c["perm"] = 0
+        yield c
+    for key in list(case.get("opt", {})):
+        c = dict(case)
+        c["opt"] = {k: v for k, v in case["opt"].items() if k != key}
+        yield c
     if kind in ("dag", "export"):
         ops = case["ops"]
         for k in range(len(ops)):
@@ -947,11 +1156,13 @@ def shrink_candidates(prop, case):
                 mut = o[3] if len(o) > 3 else "none"
                 if len(o[2]) > 1:
                     for j in range(len(o[2])):
-                        yield _with_op(case, k, [o[0], o[1], o[2][:j] + o[2][j + 1:], mut])
+                        yield _with_op(case, k, [o[0], o[1], o[2][:j] + o[2][j + 1:], mut] + o[4:])
                 if mut != "none":
-                    yield _with_op(case, k, [o[0], o[1], o[2], "none"])
+                    yield _with_op(case, k, [o[0], o[1], o[2], "none"] + o[4:])
+                if len(o) > 4:
+                    yield _with_op(case, k, [o[0], o[1], o[2], mut])
                 if o[0] in ("NP", "NC"):
-                    yield _with_op(case, k, [o[0][1], o[1], o[2], mut])
+                    yield _with_op(case, k, [o[0][1], o[1], o[2], mut] + o[4:])
                 if o[0] in ("PS", "CS") and len(o[1]) > 1:
                     for j in range(len(o[1])):
                         yield _with_op(case, k, [o[0], o[1][:j] + o[1][j + 1:], o[2], mut])
@@ -987,14 +1198,16 @@ def shrink_candidates(prop, case):
 def size(case):
     kind = case.get("kind", "dag")
     if kind in ("dag", "export"):
-        return (10 * case["n"] + sum(1 + len(_op_ids(o)) for o in case["ops"]) + sum(len(a) for a in case["attrs"])
+        return (10 * case["n"] + sum(1 + len(_op_ids(o)) + (len(o) > 4) for o in case["ops"]) + sum(len(a) for a in case["attrs"])
+                + len(case.get("opt", {})) + (case.get("cls", "DAGNode") != "DAGNode") + bool(case.get("perm"))
                 + 3 * len(case.get("checkpoints", []))
                 + sum(1 for o in case["ops"] if len(o) > 3 and o[3] != "none"))
+    extra = len(case.get("opt", {})) + (case.get("cls", "DAGNode") != "DAGNode")
     if kind == "rawlist":
-        return len(case["rel"])
+        return 2 * len(case["rel"]) + extra
     if kind == "rawdict":
-        return sum(1 + len(e[1] or []) + len(e[2]) for e in case["entries"])
-    return sum(2 + len(r[2]) for r in case["rows"])
+        return sum(2 + 2 * len(e[1] or []) + len(e[2]) for e in case["entries"]) + extra
+    return sum(4 + len(r[2]) for r in case["rows"]) + extra
 
 
 def nontrivial(prop, case, obs):
@@ -1032,10 +1245,15 @@ def rule(prop):
                 "every acyclic edge set on <= 3 (quick) / <= 4 (thorough) "
                 "nodes in several insertion orders + random shapes sparse/mixed/dense/chain/fan-in/fan-out/diamond x name pools "
                 "distinct/affix/special/repeated; observed from every start node and every ordered pair; "
+                "node class DAGNode or a user subclass; children handed over as list / tuple / generator / dict view; links must be "
+                "unchanged by the queries, iterators advanced in turn must agree with separate runs, asking twice must agree; "
                 "non-trivial = >= 3 nodes and >= 2 edges; distinct by canonical JSON hash")
-    return ("export cases: the same DAG families with attribute assignments total/partial/none, a start node and an attribute "
-            "selection (all_attrs or an attr_dict with renamed keys), exported in the three formats and rebuilt by the matching "
-            "constructor; raw cases: relation lists / dictionaries / frames over 3-5 names that are acyclic, contain an explicit "
+    return ("export cases: the same DAG families (every entry point, DAGNode or a subclass passed as node_type) with attribute "
+            "assignments total / partial / none / falsy (0, '', False, explicit None), any start node, an attribute selection "
+            "(all_attrs, all_attrs together with an attr_dict, or an attr_dict with renamed non-identifier keys), default and "
+            "non-default parent_key / name_col / parent_col, exported in the three formats, cross-checked from every start node, "
+            "and rebuilt by the matching constructor from the export as is or re-ordered (entries, parents, rows shuffled; frame "
+            "index repeated / kept; relations as tuples or lists; child_col / parent_col / attribute_cols explicit or defaulted); raw cases: relation lists / dictionaries / frames over 3-5 names that are acyclic, contain an explicit "
             "cycle of length 1-4, or are random, with repeated relations; every cyclic edge set of <= 4 edges over four names in "
             "all edge orders (thorough) / a sample of <= 5-edge sets in random orders (quick), for all three constructors; non-trivial = >= 3 nodes and >= 2 edges (export) or >= 2 relations (raw)")
 
@@ -1054,11 +1272,31 @@ def trusted_base(prop):
 
 def partial_clauses(prop):
     if prop == "C16":
-        return []
-    return ["C17_roundtrip_dict / C17_roundtrip_df carry the guard that the exported keys of a node are pairwise distinct "
-            "(dict: and not one of parent/parents/children); integer columns with missing values come back as floats "
-            "from pandas and are read as equal to the ints (1.0 == 1)",
-            "the single-node DAG (no edge) is outside the export theorems: all three exports of it are empty, as documented"]
+        return [
+            "not compared (the property does not speak about it): the ORDER of the yielded pairs / ancestors / descendants / "
+            "siblings / paths (multisets are compared), the container type returned (tuple vs list), which exception class "
+            "go_to refuses with (any exception counts as refusal), go_to with a non-DAGNode argument",
+            "not exercised: ASSERTIONS switched off (BIGTREE_CONF_ASSERTIONS), user hooks (_DAGNode__pre/post_assign_*), "
+            "copy()/deepcopy of a DAG before querying, __iter__/__getitem__/__delitem__ of DAGNode, more than 9 nodes",
+            "queries on link structures that are not consistent acyclic DAGs are reported as failures, not modelled",
+        ]
+    return [
+        "C17_roundtrip_dict / C17_roundtrip_df carry the guard that the exported keys of a node are pairwise distinct "
+        "(dict: and not one of parent/parents/children)",
+        "canonicalisations: integral floats read back from pandas count as the ints they came from (1.0 == 1); None / NaN cells "
+        "of a frame and None-valued attributes of a rebuilt node count as absent; dict entries, parents lists, frame rows and "
+        "attribute key order are compared as multisets; column dtypes, the frame index and the column order are not compared; "
+        "which node a constructor returns and the parents/children ORDER of the rebuilt DAG are not compared (names, edge set, "
+        "attributes, node class are); a refusal is any exception",
+        "export cases use distinct node names (the name-keyed code cannot reproduce a DAG with repeated names; such DAGs are "
+        "exercised under C16 only); the single-node DAG (no edge) exports to nothing, as documented, and is outside the theorems",
+        "not exercised: ASSERTIONS switched off (the cycle refusal lives in the guarded setter checks), attribute values other "
+        "than int / str / bool / None (floats, containers), attribute_cols naming a strict subset of the columns, an attribute "
+        "exported under the key 'name', dag_to_dot, polars frames, exports of DAGs with more than 7 nodes",
+        "checked inside the harness rather than in Coq: exports started from every node of the component equal the export from "
+        "the case's start node (as multisets), exporting twice gives the same result, the source DAG (links and attributes) is "
+        "unchanged, rebuilt nodes are instances of the requested node_type",
+    ]
 
 
 def assumptions(prop):
